@@ -16,7 +16,7 @@ import warnings
 from urllib.parse import unquote
 
 from harness import core
-from harness.core import cZ, cbool, clist, copt, cstr, ctuple, pstr
+from harness.core import cZ, cbool, cjson, clist, copt, cstr, ctuple, popt, pstr
 
 try:
     import re._constants as sre
@@ -1197,9 +1197,11 @@ def conforming_witness(rng, sch):
             out[name] = w
         return out
     if t == "integer":
-        return 0
+        return sch.get("minimum", 0)
     if t == "boolean":
         return True
+    if t == "array":
+        return []
     if t == "string":
         mn, mx = sch.get("minLength"), sch.get("maxLength")
         p = sch.get("pattern")
@@ -1441,6 +1443,575 @@ def classify_levels(chk, level_fail, stats):
 
 
 # ----------------------------------------------------------------------------------------
+# Aliasing: does a conversion change the document it is given?  (Model_C01 section 9)
+# ----------------------------------------------------------------------------------------
+ALIAS_FUEL = 40
+
+
+def pjson(v):
+    """Parsed Verif.Common.Json.json term -> Python value."""
+    if isinstance(v, core.Sym):
+        v = v.name
+    if v == "JNull":
+        return None
+    tag = v[0]
+    if tag == "JBool":
+        return bool(v[1])
+    if tag == "JInt":
+        return int(v[1])
+    if tag == "JStr":
+        return pstr(v[1])
+    if tag == "JArr":
+        return [pjson(x) for x in v[1]]
+    if tag == "JObj":
+        return {pstr(k): pjson(x) for k, x in v[1]}
+    raise ValueError(f"not a json term: {v!r}")
+
+
+def canon_not(d):
+    """not.required is written as list(set(..)): its order is unspecified, sort it on both sides."""
+    if isinstance(d, dict):
+        out = {k: canon_not(v) for k, v in d.items()}
+        n = out.get("not")
+        if isinstance(n, dict) and isinstance(n.get("required"), list) and all(isinstance(x, str) for x in n["required"]):
+            n["required"] = sorted(n["required"])
+        return out
+    if isinstance(d, list):
+        return [canon_not(x) for x in d]
+    return d
+
+
+def same_json(a, b) -> bool:
+    """Deep equality that also compares dict key ORDER and keeps bool apart from int."""
+    return json.dumps(a, default=str) == json.dumps(b, default=str)
+
+
+ALIAS_NAMES = ["id", "name", "secret", "token", "tag", "é", "meta", "type", "not", "n"]
+
+
+def gen_alias_prim(rng):
+    k = rng.random()
+    if k < 0.35:
+        return {"type": "string", "enum": rng.sample(["a", "bc", "d-e", ""], 2)}
+    if k < 0.55:
+        return {"type": "string", "maxLength": rng.choice([0, 1, 3, 8])}
+    if k < 0.8:
+        lo = rng.choice([-3, 0, 1])
+        return {"type": "integer", "minimum": lo, "maximum": lo + rng.choice([0, 2, 50])}
+    return {"type": "boolean"}
+
+
+def gen_alias_schema(rng, depth=0, refs=(), wild=False, max_ro=9, max_props=5):
+    """Object schema of the section 9 fragment: readOnly / writeOnly / x-writeOnly markers (true, explicit false, on primitive,
+    object and array properties), required lists that mention marked / unmarked / undeclared names, nested objects and arrays,
+    local $ref properties (refs), closed or open.  wild=True (direct converter calls only, never a loaded document): bool
+    subschemas, duplicates in required, an existing not, properties named like keywords, allOf lists, non-bool truthy markers."""
+    names = rng.sample(ALIAS_NAMES if wild else ALIAS_NAMES[:7], rng.randint(1, max_props))
+    props = {}
+    n_ro = 0
+    for name in names:
+        k = rng.random()
+        if refs and k < 0.25:
+            props[name] = {"$ref": rng.choice(refs)}
+            continue
+        if wild and k < 0.3:
+            props[name] = rng.random() < 0.5
+            continue
+        if depth < 2 and k < 0.45:
+            sub = gen_alias_schema(rng, depth + 1, refs, wild, max_ro, max_props)
+        elif depth < 2 and k < 0.6:
+            item = {"$ref": rng.choice(refs)} if refs and rng.random() < 0.5 else (gen_alias_schema(rng, depth + 1, refs, wild, max_ro, max_props) if rng.random() < 0.5 else gen_alias_prim(rng))
+            sub = {"type": "array", "items": item, "maxItems": 2}
+        else:
+            sub = gen_alias_prim(rng)
+        m = rng.random()
+        if m < 0.2 and n_ro < max_ro:
+            sub["readOnly"] = True
+            n_ro += 1
+        elif m < 0.5:
+            sub[rng.choice(["writeOnly", "writeOnly", "x-writeOnly"])] = True if not wild else rng.choice([True, True, 1, "yes"])
+        elif m < 0.6:
+            sub[rng.choice(["readOnly", "writeOnly", "x-writeOnly"])] = False if not wild else rng.choice([False, 0, ""])
+        elif m < 0.65 and n_ro < max_ro:
+            sub["readOnly"] = True
+            sub["writeOnly"] = True
+            n_ro += 1
+        props[name] = sub
+    sch = {"type": "object", "properties": props}
+    marked = [n for n, s in props.items() if isinstance(s, dict) and any(s.get(m) for m in ("readOnly", "writeOnly", "x-writeOnly"))]
+    req = [n for n in names if rng.random() < (0.7 if n in marked else 0.4)]
+    rng.shuffle(req)
+    if wild and req and rng.random() < 0.15:
+        req.insert(rng.randint(0, len(req)), rng.choice(req))  # a duplicate
+    closed = rng.random() < 0.4
+    if rng.random() < 0.15 and (wild or not closed):
+        req.append("undeclared")  # never in a closed object of a loaded document: unsatisfiable, the generator only burns time
+    if req or rng.random() < 0.1:
+        sch["required"] = req
+    if closed:
+        sch["additionalProperties"] = False
+    if wild:
+        k = rng.random()
+        if k < 0.12:
+            sch["not"] = {"required": rng.sample(names + ["zz"], rng.randint(0, 2))}
+        elif k < 0.18:
+            sch["not"] = {"type": "null"}
+        if rng.random() < 0.1:
+            sch["allOf"] = [gen_alias_schema(rng, 2, refs, wild), gen_alias_prim(rng)]
+        if rng.random() < 0.1:
+            sch["additionalProperties"] = gen_alias_schema(rng, 2, refs, wild)
+        if rng.random() < 0.1:
+            sch["nullable"] = False
+        if rng.random() < 0.08:
+            sch["type"] = rng.choice(["array", "string"])  # properties present but the type is not object: nothing is rewritten
+        if rng.random() < 0.05:
+            del sch["properties"]
+    return sch
+
+
+def stage_converter_purity(chk, n):
+    """Every real conversion is given a private deep copy of the input and the input is deep-compared afterwards:
+    to_json_schema(copy=True / copy=False) at one level, to_json_schema_recursive (= transform with copy=True) and
+    transform(.., to_json_schema, copy=False) on whole trees, both directions - result AND input-after-the-call vs
+    Model_C01.level_io / conv_io (the definitions C01_conversion_leaves_live_objects_unchanged is about)."""
+    import copy as _copy
+
+    from schemathesis.core.transforms import transform
+    from schemathesis.specs.openapi.converter import to_json_schema, to_json_schema_recursive
+
+    rng = chk.rng
+    schemas = [gen_alias_schema(rng, 0, (), wild=rng.random() < 0.7) for _ in range(n)]
+    exprs = []
+    for sch in schemas:  # the schema is rendered once per expression (parsing the literal dominates the cost)
+        calls = [f"(level_io {cbool(cp)} {cbool(resp)} j, conv_io {ALIAS_FUEL} {cbool(cp)} {cbool(resp)} j)" for cp in (True, False) for resp in (False, True)]
+        exprs.append(f"let j := {cjson(sch)} in {clist(calls)}")
+    model = core.coq_eval(IMPORTS, exprs, shard=max(4, len(exprs) // 8 + 1))
+    stats = {"schemas": n, "calls": 0, "agree": 0, "input_changed_under_copy_true": 0, "input_changed_under_copy_false": 0}
+    for sch, per_schema in zip(schemas, model):
+        it = iter(per_schema)
+        nontrivial = "nly" in json.dumps(sch)
+        for cp in (True, False):
+            for resp in (False, True):
+                m_l0, m_l1, m_rec = next(it)  # Coq prints ((a, b), c) as (a, b, c)
+                m_level, m_rec = (m_l0, m_l1), popt(m_rec)
+                for kind, m in (("level", m_level), ("recursive", m_rec)):
+                    given = _copy.deepcopy(sch)
+                    try:
+                        if kind == "level":
+                            out = to_json_schema(given, nullable_name="nullable", copy=cp, is_response_schema=resp)
+                        elif cp:
+                            out = to_json_schema_recursive(given, "nullable", is_response_schema=resp)
+                        else:
+                            out = transform(given, to_json_schema, nullable_name="nullable", copy=False, is_response_schema=resp)
+                        real = [canon_not(out), canon_not(given)]
+                    except Exception as exc:  # noqa: BLE001
+                        real = f"raises {type(exc).__name__}"
+                    stats["calls"] += 1
+                    case = {"function": "to_json_schema" if kind == "level" else "transform(to_json_schema)", "copy": cp, "is_response_schema": resp, "schema": sch}
+                    chk.seen({"purity": case}, nontrivial)
+                    changed = isinstance(real, list) and not same_json(given, sch)
+                    if changed:
+                        stats["input_changed_under_copy_true" if cp else "input_changed_under_copy_false"] += 1
+                    expected = None if m is None else [canon_not(pjson(m[0])), canon_not(pjson(m[1]))]
+                    if expected is None or isinstance(real, str) or not same_json(real[0], expected[0]):
+                        chk.disagree(f"{case['function']}(copy={cp}, is_response_schema={resp}): converted schema vs Model_C01 (section 9)", case, real if isinstance(real, str) else real[0], None if expected is None else expected[0])
+                    elif not same_json(real[1], expected[1]):
+                        what = "CHANGED the schema object it was given" if cp else "left its input in a state the in-place model does not predict"
+                        chk.disagree(f"{case['function']}(copy={cp}, is_response_schema={resp}) {what}", case, {"input_after_the_call": real[1]}, {"input_after_the_call": expected[1]})
+                    else:
+                        stats["agree"] += 1
+    chk.count("purity:schemas", n)
+    return stats
+
+
+# ---- histories on one loaded schema ------------------------------------------------------
+def inline_refs(doc, sch, depth=0):
+    """The harness' own reading of local references (independent of schemathesis)."""
+    if depth > 30:
+        raise Unsupported("reference cycle")
+    if isinstance(sch, dict):
+        if isinstance(sch.get("$ref"), str):
+            target = doc
+            for part in sch["$ref"].lstrip("#/").split("/"):
+                target = target[part]
+            return inline_refs(doc, target, depth + 1)
+        return {k: inline_refs(doc, v, depth) for k, v in sch.items()}
+    if isinstance(sch, list):
+        return [inline_refs(doc, v, depth) for v in sch]
+    return sch
+
+
+def response_instance(rng, sch, depth=0):
+    """A JSON value shaped like the (inlined) response schema, so that the validator walks into every nested schema."""
+    t = sch.get("type")
+    if "enum" in sch:
+        return rng.choice(sch["enum"])
+    if t == "object":
+        out = {}
+        for name, sub in (sch.get("properties") or {}).items():
+            if isinstance(sub, dict) and not (sub.get("writeOnly") or sub.get("x-writeOnly")) and rng.random() < 0.85:
+                out[name] = response_instance(rng, sub, depth + 1)
+        return out
+    if t == "array":
+        return [response_instance(rng, sch.get("items") or {}, depth + 1) for _ in range(rng.randint(1, 2))]
+    if t == "integer":
+        return sch.get("minimum", 0)
+    if t == "boolean":
+        return True
+    if t == "string":
+        return "a" * min(1, sch.get("maxLength", 1))
+    return None
+
+
+def gen_history_document(rng):
+    """A document with 2-4 shared components (objects with at most one readOnly and any number of writeOnly / x-writeOnly
+    properties per level, referencing later components), 2-4 operations whose request bodies and responses point at them
+    ($ref, inline object with $ref properties, array of $ref), written as Open API 3.0 or 2.0."""
+    dialect = rng.choice(["3.0", "3.0", "2.0"])
+    prefix = "#/definitions/" if dialect == "2.0" else "#/components/schemas/"
+    n_comp = rng.randint(2, 4)
+    comp_names = [f"C{i}" for i in range(n_comp)]
+    comps = {}
+    for i in reversed(range(n_comp)):
+        later = [prefix + c for c in comp_names[i + 1:]]
+        comps[comp_names[i]] = gen_alias_schema(rng, 1 if i < 2 else 2, tuple(later), wild=False, max_ro=1, max_props=3)
+    comps = {c: comps[c] for c in comp_names}
+    refs = [prefix + c for c in comp_names]
+
+    def pick(direction):
+        k = rng.random()
+        if k < 0.55:
+            return {"$ref": rng.choice(refs[:2] if rng.random() < 0.7 else refs)}
+        if k < 0.75:
+            return gen_alias_schema(rng, 2, tuple(refs), wild=False, max_ro=1, max_props=3)
+        if k < 0.9:
+            return {"type": "array", "items": {"$ref": rng.choice(refs)}, "maxItems": 2}
+        return None
+
+    paths = {}
+    ops = []
+    for i in range(rng.randint(2, 4)):
+        method = rng.choice(["post", "post", "put", "get"])
+        body = pick("request") if method != "get" else None
+        resp = pick("response")
+        if dialect == "2.0":
+            op = {"parameters": [], "responses": {"200": {"description": "ok"}}}
+            if body is not None:
+                op["parameters"].append({"name": "payload", "in": "body", "required": True, "schema": body})
+            if resp is not None:
+                op["responses"]["200"]["schema"] = resp
+        else:
+            op = {"responses": {"200": {"description": "ok"}}}
+            if body is not None:
+                op["requestBody"] = {"required": True, "content": {"application/json": {"schema": body}}}
+            if resp is not None:
+                op["responses"]["200"]["content"] = {"application/json": {"schema": resp}}
+        paths[f"/r{i}"] = {method: op}
+        ops.append({"path": f"/r{i}", "method": method, "body": body, "response": resp})
+    if dialect == "2.0":
+        raw = {"swagger": "2.0", "info": {"title": "t", "version": "1"}, "consumes": ["application/json"], "produces": ["application/json"], "paths": paths, "definitions": comps}
+    else:
+        raw = {"openapi": "3.0.2", "info": {"title": "t", "version": "1"}, "paths": paths, "components": {"schemas": comps}}
+    return raw, ops, refs, dialect
+
+
+def gen_history(rng, ops, refs):
+    """Actions on ONE loaded schema.  walk: the engine's order (get_all_operations is lazy: one operation is used, then the
+    next one is built); free: schema[path][method] in any order, mixed with direct resolver calls."""
+    if rng.random() < 0.5:
+        h = [("mode", "walk")]
+        for i in range(len(ops)):
+            h.append(("init", i))
+            for _ in range(rng.randint(0, 2)):
+                a = rng.choice(["validate", "validate", "generate", "resolve", "components"])
+                h.append((a, rng.choice(refs) if a == "resolve" else (i if rng.random() < 0.8 else rng.randint(0, i))))
+        return h
+    h = [("mode", "free")]
+    for _ in range(rng.randint(3, 8)):
+        a = rng.choice(["init", "validate", "validate", "generate", "resolve", "components"])
+        h.append((a, rng.choice(refs) if a == "resolve" else rng.randrange(len(ops))))
+    return h
+
+
+def reachable_refs(doc, sch, seen=None):
+    """Every local reference the validator may resolve while it checks a value against sch (transitively)."""
+    seen = [] if seen is None else seen
+    if isinstance(sch, dict):
+        r = sch.get("$ref")
+        if isinstance(r, str):
+            if r not in seen:
+                seen.append(r)
+                target = doc
+                for part in r.lstrip("#/").split("/"):
+                    target = target[part]
+                reachable_refs(doc, target, seen)
+            return seen
+        for v in sch.values():
+            reachable_refs(doc, v, seen)
+    elif isinstance(sch, list):
+        for v in sch:
+            reachable_refs(doc, v, seen)
+    return seen
+
+
+def history_store(doc, ops, refs):
+    """The raw document as the model sees it: reference text -> component, plus the inline response schemas."""
+    store = {}
+    for r in refs:
+        target = doc
+        for part in r.lstrip("#/").split("/"):
+            target = target[part]
+        store[r] = target
+    for i, o in enumerate(ops):
+        opdef = doc["paths"][o["path"]][o["method"]]
+        resp = opdef["responses"]["200"]
+        sch = resp.get("schema") if "swagger" in doc else (resp.get("content") or {}).get("application/json", {}).get("schema")
+        if sch is not None:
+            store[f"response:{i}"] = sch
+    return store
+
+
+def stage_history(chk, n_docs, draws=5, deadline=None):
+    """Multi-step histories on ONE loaded schema object: operations are initialised lazily, responses are validated
+    (ConvertingResolver over the raw document), positive cases are generated, in any interleaving.
+    Tie to C01_raw_document_unchanged_by_history / C01_generation_schema_history_independent: after EVERY action the raw
+    document is deep-compared with a pristine copy; at the end the generation schema of every operation (also of operations
+    initialised only now) is compared with Model_C01.history_io and with the same operation of a freshly loaded copy.
+    Oracle (independent of the model): every positive body drawn at any point of the history is validated with python-jsonschema
+    against the harness' own request view of the ORIGINAL document; Unsatisfiable is accepted only without a conforming witness."""
+    import copy as _copy
+
+    import jsonschema
+    import requests
+    import schemathesis
+    from hypothesis.errors import Unsatisfiable
+
+    from schemathesis.core import NOT_SET
+    from schemathesis.core.transport import Response
+
+    rng = chk.rng
+    stats = {"documents": 0, "actions": 0, "validate_outcomes": {}, "bodies_checked": 0, "raw_document_changed": 0, "generation_schemas_compared": 0,
+             "generation_schema_differs_from_fresh_load": 0, "nonconforming_bodies": 0, "unsatisfiable": 0}
+    model_jobs = []  # (expr, doc info, real store after, [(i, real generation schema)])
+    comp_jobs = []  # (doc info, real rewritten components, original components)
+    for _ in range(n_docs):
+        if deadline is not None and time.time() > deadline:
+            stats["stopped_at_deadline"] = True
+            break
+        raw, ops, refs, dialect = gen_history_document(rng)
+        history = gen_history(rng, ops, refs)
+        original = _copy.deepcopy(raw)
+        case_id = {"document": original, "history": history}
+        chk.count(f"history:dialect={dialect}:{history[0][1]}")
+        try:
+            schema = schemathesis.openapi.from_dict(raw)
+        except Exception as exc:  # noqa: BLE001
+            chk.fail(f"document cannot be loaded: {type(exc).__name__}", original, str(exc)[:200])
+            continue
+        stats["documents"] += 1
+        views = {}
+        for i, o in enumerate(ops):
+            if o["body"] is not None:
+                views[i] = independent_convert(inline_refs(original, o["body"]))
+        real_ops = {}
+        walker = iter(schema.get_all_operations()) if history[0][1] == "walk" else None
+        reported_change = False
+        events = []
+
+        def ensure(i):
+            if i in real_ops:
+                return real_ops[i]
+            o = ops[i]
+            if walker is not None:
+                while i not in real_ops:
+                    op = next(walker).ok()
+                    j = next(k for k, x in enumerate(ops) if x["path"] == op.path and x["method"] == op.method.lower())
+                    real_ops[j] = op
+                    if ops[j]["body"] is not None:
+                        events.append(f"EvInit {cjson(ops[j]['body'])}")
+            else:
+                real_ops[i] = schema[o["path"]][o["method"].upper()]
+                if o["body"] is not None:
+                    events.append(f"EvInit {cjson(o['body'])}")
+            return real_ops[i]
+
+        def broken_operation(i, exc, when):
+            """An operation that cannot be built / drawn from at this point of the history although the same operation of a
+            freshly loaded copy of the document can: it gets no positive cases."""
+            o = ops[i]
+            try:
+                f_op = schemathesis.openapi.from_dict(_copy.deepcopy(original))[o["path"]][o["method"].upper()]
+                if o["body"] is not None:
+                    f_op.body[0].as_json_schema(f_op)
+            except Exception:  # noqa: BLE001
+                return
+            chk.fail(f"operation gets no positive cases after a history on one loaded schema: {type(exc).__name__} (a freshly loaded copy of the document builds it)",
+                     {**case_id, "operation": f"{o['method'].upper()} {o['path']}", "when": when}, str(exc)[:200])
+
+        def guarded_draw(op):
+            import signal
+
+            fired = []
+
+            def on_alarm(signum, frame):
+                fired.append(1)
+                raise ReTimeout()
+
+            old_handler = signal.signal(signal.SIGALRM, on_alarm)
+            signal.setitimer(signal.ITIMER_REAL, 8.0)  # hypothesis-jsonschema can grind for minutes on some nested schemas
+            try:
+                cases = draw_cases(op, rng.getrandbits(32), draws)
+            except BaseException as exc:  # noqa: BLE001
+                if not fired:
+                    raise
+                stats["generation_too_slow_skipped"] = stats.get("generation_too_slow_skipped", 0) + 1
+                return
+            finally:
+                signal.setitimer(signal.ITIMER_REAL, 0)
+                signal.signal(signal.SIGALRM, old_handler)
+            return cases
+
+        def check_bodies(i, op, when):
+            if ops[i]["body"] is None:
+                return
+            try:
+                cases = guarded_draw(op)
+                if cases is None:
+                    return
+            except Unsatisfiable:
+                stats["unsatisfiable"] += 1
+                w = conforming_witness(rng, inline_refs(original, ops[i]["body"]))
+                if w is not None and jsonschema.Draft4Validator(views[i]).is_valid(w):
+                    chk.fail("operation reported Unsatisfiable although a conforming body exists (history on one loaded schema)",
+                             {**case_id, "operation": op.label, "conforming_body": w, "when": when})
+                return
+            except Exception as exc:  # noqa: BLE001
+                chk.fail(f"operation cannot produce positive cases: {type(exc).__name__} (history on one loaded schema)", {**case_id, "operation": op.label, "when": when}, str(exc)[:200])
+                return
+            for case in cases:
+                if case.body is NOT_SET:
+                    chk.fail("required body missing from a positive case", {**case_id, "operation": op.label})
+                    continue
+                stats["bodies_checked"] += 1
+                chk.seen({"history_body": [ops[i]["body"], case.body]}, True)
+                errors = list(jsonschema.Draft4Validator(views[i]).iter_errors(case.body))
+                if errors:
+                    stats["nonconforming_bodies"] += 1
+                    chk.fail("positive request body does not conform to the DECLARED schema (validated against an independently converted copy of the original document): "
+                             + errors[0].message[:120], {**case_id, "operation": op.label, "body": case.body, "when": when},
+                             {"declared_request_view": views[i]})
+
+        for step_no, (action, arg) in enumerate(history[1:], 1):
+            stats["actions"] += 1
+            chk.count(f"history:action={action}")
+            try:
+                if action == "init":
+                    ensure(arg)
+                elif action == "resolve":
+                    with schema._validating_response([schema.location or ""]) as resolver:
+                        resolver.resolve(arg)
+                    events.append(f"EvConvert {cstr(arg)} true")
+                elif action == "validate":
+                    op = ensure(arg)
+                    rs = ops[arg]["response"]
+                    if rs is not None:
+                        data = response_instance(rng, inline_refs(original, rs))
+                        req = requests.Request(ops[arg]["method"].upper(), "http://127.0.0.1" + ops[arg]["path"]).prepare()
+                        response = Response(status_code=200, headers={"content-type": ["application/json"]}, content=json.dumps(data).encode(), request=req, elapsed=0.1, verify=False)
+                        try:
+                            op.validate_response(response)
+                            outcome = "valid"
+                        except AssertionError:
+                            outcome = "failures"
+                        stats["validate_outcomes"][outcome] = stats["validate_outcomes"].get(outcome, 0) + 1
+                        events.append(f"EvConvert {cstr('response:%d' % arg)} true")
+                        for r in reachable_refs(original, rs):
+                            events.append(f"EvConvert {cstr(r)} true")
+                elif action == "generate":
+                    check_bodies(arg, ensure(arg), f"action {step_no}")
+                elif action == "components":
+                    # rewritten_components: transform(deepclone(components), to_json_schema(copy=False)); lazily built, once
+                    rc = schema.rewritten_components
+                    events.extend(f"EvComponents {cstr(r)}" for r in refs)
+                    comp_jobs.append((case_id, canon_not(rc["definitions"] if dialect == "2.0" else rc["components"]["schemas"]),
+                                      original["definitions"] if dialect == "2.0" else original["components"]["schemas"]))
+            except StopIteration:
+                pass
+            except Exception as exc:  # noqa: BLE001
+                chk.count(f"history:error:{action}:{type(exc).__name__}")
+                if action in ("init", "generate"):
+                    broken_operation(arg, exc, f"action {step_no} {action}")
+            if not reported_change and schema.raw_schema != original:
+                reported_change = True
+                stats["raw_document_changed"] += 1
+                changed = [k for k, v in history_store(schema.raw_schema, ops, refs).items() if v != history_store(original, ops, refs)[k]]
+                chk.disagree(f"the raw schema document was CHANGED by action {step_no} {action}({arg}) (model: C01_raw_document_unchanged_by_history)",
+                             case_id, {"changed": changed, "now": {k: history_store(schema.raw_schema, ops, refs)[k] for k in changed}},
+                             {"changed": []})
+        # operations initialised only now see whatever the earlier conversions left behind
+        late = [i for i in range(len(ops)) if i not in real_ops]
+        gens = []
+        fresh_schema = schemathesis.openapi.from_dict(_copy.deepcopy(original))
+        for i in range(len(ops)):
+            if ops[i]["body"] is None:
+                continue
+            o = ops[i]
+            fresh_op = fresh_schema[o["path"]][o["method"].upper()]
+            fresh_gen = canon_not(fresh_op.body[0].as_json_schema(fresh_op))
+            try:
+                op = ensure(i)
+                real_gen = canon_not(op.body[0].as_json_schema(op))
+            except StopIteration:
+                continue
+            except Exception as exc:  # noqa: BLE001
+                broken_operation(i, exc, "after the history")
+                continue
+            stats["generation_schemas_compared"] += 1
+            if not same_json(real_gen, fresh_gen):
+                stats["generation_schema_differs_from_fresh_load"] += 1
+                chk.disagree("generation schema of an operation depends on the history of earlier conversions / validations on the same loaded schema "
+                             "(model: C01_generation_schema_history_independent); implementation = after the history, model = freshly loaded document",
+                             {**case_id, "operation": op.label}, real_gen, fresh_gen)
+            gens.append((i, real_gen))
+            if i in late or rng.random() < 0.3:
+                check_bodies(i, op, "after the history" + (" (operation initialised only now)" if i in late else ""))
+        store = history_store(original, ops, refs)
+        body_exprs = [f"history_io {ALIAS_FUEL} true {cjson(store)} {clist(events, 'event')} {cjson(ops[i]['body'])}" for i, _ in gens]
+        model_jobs.append((body_exprs, case_id, canon_not(history_store(schema.raw_schema, ops, refs)), canon_not(store), gens))
+    flat = [e for job in model_jobs for e in job[0]]
+    model = core.coq_eval(IMPORTS, flat, shard=max(4, len(flat) // 8 + 1)) if flat else []
+    it = iter(model)
+    agree = 0
+    for body_exprs, case_id, real_store, store, gens in model_jobs:
+        for (i, real_gen) in gens:
+            m = popt(next(it))
+            if m is None:
+                chk.count("history:model-out-of-fuel")
+                continue
+            m_store, m_gen = canon_not(pjson(m[0])), popt(m[1])
+            if not same_json(m_store, store):
+                chk.disagree("Model_C01.run changed the store (the theorem says it cannot)", case_id, None, m_store)
+            if not same_json(real_store, m_store):
+                chk.disagree("raw document after the history vs Model_C01.run", case_id, real_store, m_store)
+            elif m_gen is None or not same_json(real_gen, canon_not(pjson(m_gen))):
+                chk.disagree("generation schema after the history vs Model_C01.history_io", {**case_id, "operation": i}, real_gen, None if m_gen is None else canon_not(pjson(m_gen)))
+            else:
+                agree += 1
+    stats["model_agree"] = agree
+    comp_model = core.coq_eval(IMPORTS, [f"clone_conv_io {ALIAS_FUEL} {cjson(orig)}" for _, _, orig in comp_jobs], shard=max(4, len(comp_jobs) // 8 + 1)) if comp_jobs else []
+    stats["rewritten_components_compared"] = len(comp_jobs)
+    for (case_id, real_rc, orig), m in zip(comp_jobs, comp_model):
+        m = popt(m)
+        if m is None:
+            continue
+        if not same_json(real_rc, canon_not(pjson(m[0]))):
+            chk.disagree("rewritten_components (in-place conversion of a deepclone of the components) vs Model_C01.clone_conv_io", case_id, real_rc, canon_not(pjson(m[0])))
+        if not same_json(canon_not(orig), canon_not(pjson(m[1]))):
+            chk.disagree("Model_C01.clone_conv_io changed the components it cloned (the theorem says it cannot)", case_id, None, pjson(m[1]))
+    return stats
+
+
+# ----------------------------------------------------------------------------------------
 # Generation settings: allow_x00 / codec
 # ----------------------------------------------------------------------------------------
 CONFIG_DOC = {
@@ -1613,6 +2184,8 @@ def run(chk: core.Check):
         "(capture groups transparent below the top level, lazy = greedy)",
         "re.search as the reference matcher (the model matcher is compared with it on every run; python-jsonschema uses re.search for pattern)",
         "python-jsonschema Draft4/2020-12 validators as the meaning of 'conforms' in the end-to-end oracle",
+        "Model_C01 section 9: Python containers as trees whose dicts / lists carry an identity, mutations addressed to an identity and recorded in a log; "
+        "the harness compares the erased result AND the erased input-after-the-call with the real functions (deep comparison of a private copy)",
         "correspondence harness harness/props/c01.py (encoders, Coq output parser, generators)",
     ]
     chk.assumptions = [
@@ -1620,11 +2193,16 @@ def run(chk: core.Check):
         "Unicode category tables behind \\d \\s \\w are a parameter (catp) of every theorem; evaluation uses a table exact on ASCII + 8 listed code points",
         "patterns carry no inline flags, look-around, back-references, possessive/atomic constructs, multi-character escapes (\\xNN) in the multi-quantifier path",
         "string lengths and maxLength stay below sre MAXREPEAT (2**32-1)",
+        "aliasing model: the raw document is a tree (no container is shared between two places of the document, no cyclic references); "
+        "section 9 leaves out nullable wrapping / type file / pattern merging (top-level key changes of the working copy, modelled in sections 1-7)",
     ]
     chk.rule = (
         "patterns drawn from one PRNG (VERIF_SEED): optional lead anchor (^ \\A \\b \\B) x 0-5 parts (literal / class / group atoms x 19 quantifiers incl. lazy) x optional trail anchor "
         "($ \\Z \\b \\B), 10% free-form incl. mid-pattern anchors and top-level alternation; minLength/maxLength from None,0..13,20..1000, 15% exact-length pairs; "
-        "strings = random walks through the (rewritten) AST then mutated (trailing newline, padding, insert/delete, junk); non-trivial = the rewriter rewrote / the string matches; distinct by canonical JSON"
+        "strings = random walks through the (rewritten) AST then mutated (trailing newline, padding, insert/delete, junk); non-trivial = the rewriter rewrote / the string matches; distinct by canonical JSON; "
+        "aliasing: object schemas with readOnly / writeOnly / x-writeOnly markers (true, false, truthy non-bool), required lists with marked / unmarked / undeclared / duplicate names, existing not, "
+        "nested objects, arrays, allOf, bool subschemas x copy flag x direction; histories = documents (3.0 / 2.0) with 2-4 shared components behind $ref, 2-4 operations, "
+        "3-10 actions from init / validate a response / resolve a reference / generate, lazily walked (engine order) or in free order"
     )
     chk.proofs(["Common", "C01"])
     rng = chk.rng
@@ -1664,10 +2242,12 @@ def run(chk: core.Check):
 
     # a broken proof / correspondence must try harder to find a concrete failing input, but within a wall-clock cap (quick: ~4 min in all)
     chk.stages["correspondence_nullable"] = stage_nullable(chk, 400 if quick else 5000)
+    chk.stages["correspondence_converter_purity"] = stage_converter_purity(chk, 50 if quick else 500)
 
     boost = 10 if chk.broken else 1
     cap = (225 if quick else 1500) if chk.broken else None
     t0 = chk.t0
+    chk.stages["search_history"] = stage_history(chk, (32 if quick else 250) * (3 if chk.broken else 1), deadline=cap and t0 + cap * 0.4)
     chk.stages["search_rewriter"] = stage_rewrite_search(chk, rewritten, (6 if quick else 12) * boost, deadline=cap and t0 + cap * 0.45)
     chk.stages["search_string_level"] = stage_string_level(chk, (400 if quick else 6000) * boost, deadline=cap and t0 + cap * 0.6)
     chk.stages["search_generation_config"] = stage_generation_config(chk, 3 if quick else 25)
